@@ -175,7 +175,7 @@ func detectorCases(st *vx.Stats, c *capture) {
 		if !gone {
 			// a detector that outlives its acquisition reports a deadlock that does not exist
 			waitFor(debug.DeadlockDetectionTimeout+2*time.Second, func() bool { return c.reports() > r0 })
-			fail("short waits (all 3 RLock + 3 Lock calls returned within %v): %d goroutine(s) of the deadlock detection still running, %d false deadlock report(s): %s", elapsed, runtime.NumGoroutine()-g0, c.reports()-r0, c.text(600))
+			fail("short waits (all 2 RLock + 2 Lock calls returned within %v): %d goroutine(s) of the deadlock detection still running, %d false deadlock report(s): %s", elapsed, runtime.NumGoroutine()-g0, c.reports()-r0, c.text(600))
 			ok = false
 		} else if k := c.reports() - r0; k != 0 {
 			fail("short waits (all calls returned within %v): %d false deadlock report(s): %s", elapsed, k, c.text(600))
